@@ -311,15 +311,32 @@ func c09Entrypoints(c *Ctx, g *load.G) {
 	// Optimize builds the protected set
 	ok1, ok2, ok3, ok4 := optimizerProtectedSet(c, g)
 	r.Check(ok1 && ok2 && ok3 && ok4, "C09-d", "G.ast.Optimize:protected-set", "", "ast/ast_optimize.go", "alternate entrypoints plus the first rule, all entered into protectedRules", fmt.Sprintf("alt=%t first=%t passed=%t all-entered=%t", ok1, ok2, ok3, ok4))
-	mf := load.FuncDecl(g.Pkg(""), "", "main")
+	// wherever the command calls the optimizer, the variadic argument is the value of -alternate-entrypoints
+	mp := g.Pkg("")
+	fmC := newFlagModel(mp, func(fn string) bool { return strings.HasSuffix(fn, "/pigeon.go") || strings.HasSuffix(fn, "_test.go") })
+	flC := newFlow(mp, func(fn string) bool { return strings.HasSuffix(fn, "/pigeon.go") || strings.HasSuffix(fn, "_test.go") })
 	okMain := false
-	if mf != nil {
-		for _, ce := range callsIn(mf.Body) {
-			if callName(ce) == "ast.Optimize" && len(ce.Args) == 2 && nospace(ce.Args[1]) == "altEntrypointsFlag" && ce.Ellipsis.IsValid() {
-				okMain = true
+	nOpt := 0
+	for _, cf := range flC.decls {
+		for _, ce := range callsIn(cf.Body) {
+			if callName(ce) != "ast.Optimize" {
+				continue
+			}
+			nOpt++
+			if len(ce.Args) == 2 && ce.Ellipsis.IsValid() {
+				if fmC.flagOf(ce.Args[1]) == "alternate-entrypoints" {
+					okMain = true
+					continue
+				}
+				for _, o := range flC.origins(ce.Args[1], cf, 0) {
+					if fmC.flagOf(o.Expr) == "alternate-entrypoints" {
+						okMain = true
+					}
+				}
 			}
 		}
 	}
+	okMain = okMain && nOpt == 1
 	// the flag accumulates over repeated occurrences
 	sf := load.FuncDecl(g.Pkg(""), "ruleNamesFlag", "Set")
 	okSet := false
